@@ -463,6 +463,100 @@ def run(chk):
     _e6.run_WH(chk, "WH")
     from . import e10
     e10.run_U(chk, ("yastn.tensor.linalg",), floor1=5, floor2=1)
+    run_D8(chk)
+
+
+def _param_deps(prog, f, expr, at=None, depth=0):
+    """parameters of `f` the value of `expr` can depend on: data dependence through local definitions (all of them), control
+    dependence on the `if` tests enclosing those definitions, and the arguments of calls (helpers of the module are followed: a
+    helper's result depends on the arguments bound to the parameters its return value depends on)"""
+    fn = f.node
+    b = A.local_bindings(fn)
+    par = A.enclosing_map(fn)
+    params = set(f.params)
+    seen, out = set(), set()
+
+    def visit_expr(e):
+        for n in ast.walk(e):
+            if isinstance(n, ast.Call) and isinstance(n.func, ast.Name) and depth < 2:
+                tgt = prog.resolve(f.module, n.func.id)
+                if hasattr(tgt, "node") and hasattr(tgt, "params") and tgt.module is f.module:
+                    rets = [r.value for r in ast.walk(tgt.node) if isinstance(r, ast.Return) and r.value is not None]
+                    inner = set()
+                    for r in rets:
+                        inner |= _param_deps(prog, tgt, r, depth=depth + 1)
+                    bound = dict(zip(tgt.params, n.args))
+                    bound.update({k.arg: k.value for k in n.keywords if k.arg})
+                    for p_ in inner:
+                        if p_ in bound:
+                            visit_expr(bound[p_])
+                    continue
+            if isinstance(n, ast.Name) and isinstance(n.ctx, ast.Load):
+                visit_name(n.id)
+
+    def visit_name(nm):
+        if nm in seen:
+            return
+        seen.add(nm)
+        if nm in params and nm not in b:
+            out.add(nm)
+            return
+        if nm in params:
+            out.add(nm)
+        for st, v, k in b.get(nm, []):
+            if v is not None:
+                visit_expr(v)
+            cur = st
+            while cur in par:
+                cur = par[cur]
+                if isinstance(cur, (ast.If, ast.While)):
+                    visit_expr(cur.test)
+    visit_expr(expr)
+    # control dependence of the expression's own position
+    return out
+
+
+def run_D8(chk):
+    """D8: a per-sector limit given as a dictionary {charge of the S sector: D} is looked up, in the partial-SVD policies, *before* S
+    exists, with a key computed from the blocks of the merged matrix.  The charges of the S sectors are computed in _meta_svd and
+    depend on nU *and* on sU (for one sign of sU they are the negated block charges): a look-up key that does not depend on every
+    parameter the sector charges depend on cannot agree with them for all option values, and the dictionary silently falls back to its
+    minimum -- fewer singular values are computed than the caller allowed (the truncation is no longer the optimal one)."""
+    prog = chk.prog
+    chk.rule("D8", "dict-valued per-sector limits of the partial SVD policies are looked up by a key that depends on the same options (nU, sU) as the S-sector charges", floor=1)
+    svd = prog.func(LINALG, "svd")
+    meta = prog.func(LINALG, "_meta_svd")
+    # S-sector charges in _meta_svd: the `t=` of the struct built with diag=True
+    sst = [c for c in ast.walk(meta.node) if isinstance(c, ast.Call) and A.call_name(c) == "_struct" and (A.kwarg(c, "diag") is not None)
+           and isinstance(A.kwarg(c, "diag"), ast.Constant) and A.kwarg(c, "diag").value is True and A.kwarg(c, "t") is not None]
+    chk.require(sst, "_meta_svd: the diagonal struct of S (`_struct(.., diag=True, t=..)`) not found")
+    sdeps = _param_deps(prog, meta, A.kwarg(sst[0], "t")) & {"sU", "nU"}
+    gets = [c for c in ast.walk(svd.node) if isinstance(c, ast.Call) and isinstance(c.func, ast.Attribute) and c.func.attr == "get" and c.args
+            and isinstance(c.func.value, ast.Name) and "block" in c.func.value.id]
+    subs = [n for n in ast.walk(svd.node) if isinstance(n, ast.Subscript) and isinstance(n.value, ast.Name) and "block" in n.value.id and isinstance(n.ctx, ast.Load)
+            and not isinstance(n.slice, ast.Constant)]
+    sites = [(c, c.args[0]) for c in gets] + [(n, n.slice) for n in subs]
+    chk.require(sites, "svd: no look-up of a dict-valued per-sector limit (k_block.get(..) / k_block[..]) found")
+    par = A.enclosing_map(svd.node)
+    for node, key in sites:
+        # the key is usually a comprehension variable: depend on what its iterable depends on
+        kdeps = set()
+        cur = node
+        exprs = [key]
+        while cur in par:
+            cur = par[cur]
+            if isinstance(cur, (ast.GeneratorExp, ast.ListComp, ast.DictComp, ast.SetComp)):
+                tnames = {x.id for g in cur.generators for x in ast.walk(g.target) if isinstance(x, ast.Name)}
+                if any(isinstance(x, ast.Name) and x.id in tnames for x in ast.walk(key)):
+                    exprs += [g.iter for g in cur.generators]
+        for e in exprs:
+            kdeps |= _param_deps(prog, svd, e)
+        kdeps &= {"sU", "nU"}
+        missing = sorted(sdeps - kdeps)
+        chk.verdict("D8", (svd, node), f"svd: `{A.short(node, 50)}` key depends on {sorted(kdeps)}; S-sector charges depend on {sorted(sdeps)}", False if missing else True,
+                    f"svd(): the per-sector limit is looked up by a key (`{A.short(key, 30)}`) that does not depend on `{', '.join(missing)}`, while the charges of the "
+                    f"S sectors computed in _meta_svd do: for one value of `{missing[0] if missing else ''}` the keys are the negated sector charges, the dictionary is "
+                    f"not hit and its minimum is used -- e.g. D_block={{(0,):1,(1,):2,(2,):3}} keeps (1,1,1) with policy='lowrank' and (1,2,3) with 'fullrank'")
 
 MUTANTS = [
     ("masked entries as zeros in the global ordering", "yastn/tensor/linalg.py", "    inds = S.config.backend.argsort(temp_data - S.config.backend.bitwise_not(Smask.data) * lowest)\n", "    inds = S.config.backend.argsort(temp_data)\n", "D4"),
